@@ -187,7 +187,12 @@ pub(crate) fn inline_def_body(
     params: &ParametersCompiled<IrSpanned<ExprCompiled>>,
     body: &StmtsCompiled,
 ) -> Option<InlineDefBody> {
-    if params.params.len() == 1 && params.params[0].accepts_positional() {
+    // `accepts_positional` does not know about `*`: a parameter after it is keyword-only,
+    // and a call which passes it positionally must fail, not be replaced with a type test.
+    if params.params.len() == 1
+        && params.params[0].accepts_positional()
+        && params.indices.num_positional == 1
+    {
         if let Some(t) = is_return_type_is(body) {
             return Some(InlineDefBody::ReturnTypeIs(t));
         }
